@@ -13,12 +13,15 @@ META = dict(
     level_text=('Theorems (any forest, any history of the modelled operations, any scope stack): every step of the model preserves well-formedness '
                 '(stored parent = actual container, stored path = actual key sequence, list keys 0..n-1, unique node ids), hence every history does; '
                 'looking a node\'s stored path up from its root returns that node; nodes an operation removes become detached roots. '
+                'The same over the whole list/dict surface: slice assignment, slice deletion, d | m, m | d of the C02 extension of the model '
+                '(C01_step2_wf, C01_tree_integrity_full_surface; tied by the C02 correspondence and by the oracle-only slice sweep here). '
                 'Tie: the model is run against the implementation on generated histories (every public mutator of List/Dict/Object incl. in-place operators, '
                 'rebind, clone, seal) and the snapshots (kind, stored path, parent-is-container, flags, children) after every step must be identical; '
                 'a direct oracle walks every root after every step.'),
     level_note=('Trusted: Coq kernel; extraction (ExtrOcamlBasic) cross-checked against vm_compute; the implementation driver and generator. '
-                'Modelled, not verified: the Python code itself (tied by the correspondence only). Not modelled: slice assignment, value specs (C03), '
-                'pg.Ref / inferential values, pg.Object\'s internal attribute Dict (collapsed into the object node), origin tracking.'),
+                'Modelled, not verified: the Python code itself (tied by the correspondence only). Not modelled: value specs (C03), '
+                'pg.Ref / inferential values (oracle-only sweep: every write path x reference to own tree / other tree, fresh / held elsewhere), '
+                'pg.Object\'s internal attribute Dict (collapsed into the object node; the oracle checks after every step that it forwards parent and path), origin tracking.'),
     rule='a case is (forest literal, list of (scope stack, operation)); distinct by canonical text; non-trivial when at least one operation succeeds in changing a tree that has a nested symbolic node',
     trusted_base=['extraction: ExtrOcamlBasic only; ocaml/main.ml lexer/printer; cross-checked against vm_compute on a sample',
                   'implementation driver harness/props/symcore_driver.py (positions, snapshots, bookkeeping of removed nodes) and generator symcore_gen.py'],
@@ -47,6 +50,12 @@ def check_forest(impl):
       if id(n) in seen and seen[id(n)] != ri:
         hits.append(('two-places', 'one node object is stored in roots #%d and #%d' % (seen[id(n)], ri)))
       seen[id(n)] = ri
+      at = getattr(n, '_sym_attributes', None)
+      if at is not None and D.is_sym(at):
+        # pg.Object keeps its fields in an internal pg.Dict that forwards parent and path (the model collapses it into the object node)
+        if at.sym_parent is not n or at.sym_path != n.sym_path:
+          hits.append(('attribute-container', 'the attribute container of the object at %r reports parent %s, path %r' % (
+              str(n.sym_path), 'the object' if at.sym_parent is n else 'another / None', str(at.sym_path))))
       for k, v in D.sym_children(n):
         if not D.is_sym(v):
           continue
@@ -173,6 +182,138 @@ def construction_sweep(ctx):
         break
   ctx.extra['construction_sweep'] = dict(oracle_only=True, cases=n, what='the same node handed twice to one constructor / rebind / extend / update, parentless and parented')
 
+def ref_cases():
+  """(name, script) — script(P, A) returns (roots the user holds, extra checks [(ok, what)])."""
+  P = D.pg()
+  A, B, C = D.classes()
+  def containers():
+    # (label, make) -> (root, container): the container a value is written into, as root and nested
+    yield 'dict-root', lambda: (lambda d: (d, d))(P.Dict(a=1))
+    yield 'dict-nested', lambda: (lambda o: (o, o.c))(P.Dict(c=P.Dict(a=1)))
+    yield 'list-root', lambda: (lambda l: (l, l))(P.List([1, P.Dict(b=2)]))
+    yield 'list-nested', lambda: (lambda o: (o, o.c))(P.Dict(c=[1, P.Dict(b=2)]))
+    yield 'object-root', lambda: (lambda a: (a, a))(A(x=1))
+    yield 'object-nested', lambda: (lambda o: (o, o[0]))(P.List([A(x=1)]))
+  def writers(c):
+    if isinstance(c, P.List):
+      yield 'setitem', lambda v: c.__setitem__(0, v)
+      yield 'append', lambda v: c.append(v)
+      yield 'insert', lambda v: c.insert(0, v)
+      yield 'extend', lambda v: c.extend([7, v])
+      yield 'slice-assign', lambda v: c.__setitem__(slice(0, 1), [v, 8])
+      yield 'rebind', lambda v: c.rebind({0: v})
+      yield 'iadd', lambda v: c.__iadd__([v])
+    elif isinstance(c, P.Dict):
+      yield 'setitem', lambda v: c.__setitem__('x', v)
+      yield 'setattr', lambda v: setattr(c, 'x', v)
+      yield 'update', lambda v: c.update({'x': v})
+      yield 'setdefault', lambda v: c.setdefault('x', v)
+      yield 'rebind', lambda v: c.rebind(x=v)
+      yield 'ior', lambda v: c.__ior__({'x': v})
+    else:
+      yield 'rebind', lambda v: c.rebind(x=v)
+      yield 'rebind-y', lambda v: c.rebind(y=v)
+  targets = ['container', 'root', 'child', 'other', 'other-child', 'plain-list']
+  refs = ['fresh', 'parented']
+  for cl, mk in containers():
+    root0, c0 = mk()
+    for wl, _ in writers(c0):
+      for tg in targets:
+        for rf in refs:
+          yield dict(kind='ref', container=cl, writer=wl, target=tg, ref=rf)
+
+def run_ref_case(case):
+  """Returns a list of (clause, what).  The referenced value must keep its place, the reference must report the place it is stored at (or none)."""
+  P = D.pg()
+  A, B, C = D.classes()
+  mk = {'dict-root': lambda: (lambda d: (d, d))(P.Dict(a=1)), 'dict-nested': lambda: (lambda o: (o, o.c))(P.Dict(c=P.Dict(a=1))),
+        'list-root': lambda: (lambda l: (l, l))(P.List([1, P.Dict(b=2)])), 'list-nested': lambda: (lambda o: (o, o.c))(P.Dict(c=[1, P.Dict(b=2)])),
+        'object-root': lambda: (lambda a: (a, a))(A(x=1)), 'object-nested': lambda: (lambda o: (o, o[0]))(P.List([A(x=1)]))}[case['container']]
+  root, c = mk()
+  other = P.Dict(k=P.Dict(m=1))
+  if case['target'] == 'container': tgt = c
+  elif case['target'] == 'root': tgt = root
+  elif case['target'] == 'child':
+    kids = [v for _, v in c.sym_items() if D.is_sym(v)]
+    tgt = kids[0] if kids else c
+  elif case['target'] == 'other': tgt = other
+  elif case['target'] == 'other-child': tgt = other.k
+  else: tgt = [1, 2]
+  r = P.Ref(tgt)
+  holder = None
+  if case['ref'] == 'parented':
+    holder = P.Dict(h=r)
+  tp, tpath = (tgt.sym_parent, tgt.sym_path) if D.is_sym(tgt) else (None, None)
+  w = case['writer']
+  if isinstance(c, P.List):
+    fn = {'setitem': lambda v: c.__setitem__(0, v), 'append': lambda v: c.append(v), 'insert': lambda v: c.insert(0, v), 'extend': lambda v: c.extend([7, v]),
+          'slice-assign': lambda v: c.__setitem__(slice(0, 1), [v, 8]), 'rebind': lambda v: c.rebind({0: v}), 'iadd': lambda v: c.__iadd__([v])}[w]
+  elif isinstance(c, P.Dict):
+    fn = {'setitem': lambda v: c.__setitem__('x', v), 'setattr': lambda v: setattr(c, 'x', v), 'update': lambda v: c.update({'x': v}),
+          'setdefault': lambda v: c.setdefault('x', v), 'rebind': lambda v: c.rebind(x=v), 'ior': lambda v: c.__ior__({'x': v})}[w]
+  else:
+    fn = {'rebind': lambda v: c.rebind(x=v), 'rebind-y': lambda v: c.rebind(y=v)}[w]
+  exc = None
+  try:
+    fn(r)
+  except Exception as e:      # pylint: disable=broad-except
+    exc = e
+  hits = []
+  impl = D.Impl()
+  impl.roots.extend([root, other])
+  if holder is not None:
+    impl.roots.append(holder)
+  stored = []
+  D.walk(root, lambda x, p, k: stored.append(x) if isinstance(x, P.Ref) else None)
+  if not any(x is r for x in stored) and holder is None:
+    impl.roots.append(r)          # the user still holds the reference object: it is not in any tree, so it must say so
+  hits.extend(check_forest(impl))
+  if D.is_sym(tgt) and (tgt.sym_parent is not tp or tgt.sym_path != tpath):
+    hits.append(('referenced-value-moved', 'the referenced value changed its parent / path (%r -> %r)' % (str(tpath), str(tgt.sym_path))))
+  for x in stored:
+    if x.value is not tgt:
+      hits.append(('reference-retargeted', 'the stored reference points to another object'))
+  if exc is None and not stored:
+    hits.append(('reference-lost', 'the write returned but no reference is stored'))
+  if exc is not None and not isinstance(exc, NotImplementedError):
+    hits.append(('reference-raises', 'the write raises %s' % type(exc).__name__))
+  if holder is not None and (holder.sym_getattr('h') is not r or r.sym_parent is not holder):
+    hits.append(('reference-stolen', 'the reference held by another tree was moved instead of copied'))
+  # a deep copy of the tree holds fresh references to the same object
+  try:
+    cp = root.clone(deep=True)
+    cimpl = D.Impl(); cimpl.roots.extend([root, cp])
+    hits.extend(check_forest(cimpl))
+    crefs = []
+    D.walk(cp, lambda x, p, k: crefs.append(x) if isinstance(x, P.Ref) else None)
+    if len(crefs) != len(stored) or any(x.value is not tgt for x in crefs) or any(any(x is y for y in stored) for x in crefs):
+      hits.append(('reference-copy', 'the deep copy does not hold fresh references to the same object'))
+  except Exception as e:        # pylint: disable=broad-except
+    hits.append(('reference-copy', 'deep copy raises %s' % type(e).__name__))
+  return hits, exc
+
+def ref_sweep(ctx):
+  """pg.Ref values (oracle only: the model has no reference nodes): written through every write path of every container kind."""
+  n = refused = 0
+  for case in ref_cases():
+    hits, exc = run_ref_case(case)
+    n += 1
+    refused += exc is not None
+    ctx.evaluations += 1
+    for clause, what in hits:
+      ctx.hit('C01/%s/Ref-write/%s' % (clause, 'stored' if exc is None else 'refused'),
+              'pg.Ref(%s) [%s] written into %s by %s%s: %s' % (case['target'], case['ref'], case['container'], case['writer'],
+                                                               ' (refused: %s)' % type(exc).__name__ if exc is not None else '', what), case)
+      break
+  ctx.extra['ref_sweep'] = dict(oracle_only=True, cases=n, refused_self_reference=refused,
+                                what='pg.Ref to the container / its root / its child / another tree / a child of another tree / a plain list, fresh and already held by '
+                                     'another tree, written by every write path of Dict / List / Object (root and nested); integrity walk incl. the reference object '
+                                     'the user still holds after a refused write; the referenced value keeps its place; deep copies hold fresh references to the same object')
+
+def replay_ref(c):
+  hits, _ = run_ref_case(c)
+  return not hits
+
 def replay_construction(c):
   class Ctx:
     hits = []
@@ -185,6 +326,7 @@ def replay_construction(c):
 
 def slice_sweep(ctx):
   construction_sweep(ctx)
+  ref_sweep(ctx)
   import time
   from harness.props import symcore_gen as G
   t0 = time.time()
@@ -208,4 +350,6 @@ def slice_sweep(ctx):
 def replay(ctx, rp):
   if isinstance(rp.get('case'), dict) and rp['case'].get('kind') == 'construction':
     return replay_construction(rp['case'])
+  if isinstance(rp.get('case'), dict) and rp['case'].get('kind') == 'ref':
+    return replay_ref(rp['case'])
   return D.replay_property(ctx, rp, Oracle)
